@@ -64,20 +64,7 @@ func (g *G) avoidRetroRenames() {
 	if len(forbidden) == 0 {
 		return
 	}
-	var predicted func(t *Ty) string
-	predicted = func(t *Ty) string {
-		switch t.K {
-		case KNamed:
-			return strings.ToLower(t.Name[:1]) + t.Name[1:]
-		case KPtr:
-			return predicted(t.Elem)
-		case KSlice, KArray:
-			return predicted(t.Elem) + "s"
-		case KBasic:
-			return t.Name
-		}
-		return ""
-	}
+	predicted := predictedName
 	for _, it := range g.ifaces {
 		for _, m := range it.Methods {
 			hit := false
@@ -105,4 +92,41 @@ func (g *G) avoidRetroRenames() {
 			}
 		}
 	}
+}
+
+// predictedName approximates the name moq derives for an unnamed parameter (only used to steer away from
+// known findings; the oracles have their own model).
+func predictedName(t *Ty) string {
+	switch t.K {
+	case KNamed:
+		return strings.ToLower(t.Name[:1]) + t.Name[1:]
+	case KPtr:
+		return predictedName(t.Elem)
+	case KSlice, KArray:
+		if t.Elem.K == KBasic {
+			return t.Elem.Name + "s"
+		}
+		return predictedName(t.Elem) + "s"
+	case KBasic:
+		switch t.Name {
+		case "string":
+			return "s"
+		case "bool":
+			return "b"
+		case "error":
+			return "err"
+		case "float32", "float64":
+			return "f"
+		case "int", "int8", "int16", "int32", "int64", "rune":
+			return "n"
+		}
+		return "v"
+	case KFunc:
+		return "fn"
+	case KStruct:
+		return "val"
+	case KIface:
+		return "ifaceVal"
+	}
+	return ""
 }
